@@ -194,6 +194,7 @@ func runC03(c *Check, w *World) {
 		}
 	}
 	ruleHistoryIndependence(c, w, tb, ef, "R03.H", val)
+	checkRESTEndpoints(c, w, tb, ef, "R03.REST", "/hotp/validate")
 	c.Floor("R03.1", 1)
 	c.Floor("R03.2", 1)
 	c.Floor("R03.3", 1)
